@@ -260,6 +260,17 @@ def menu(fmt):
     add("loc.geo", "location.geo=identity-transformation", lambda s: s["location"].__setitem__("geo", {"ref": "+proj=utm +zone=32", "x": 0.0, "y": 0.0, "rot": 0.0, "scale": 1.0}))
     add("loc.geo", "location.geo=reference-only(defaults)", lambda s: s["location"].__setitem__("geo", {"ref": "+proj=utm +zone=32"}))
     add("loc.env", "location.env=None", lambda s: s["location"].__setitem__("env", None))
+    # a location that keeps the "unknown place" defaults for name id and GPS position but carries a geo transformation and an environment
+    add("loc.ids", "location.ids=defaults(unknown-place)", lambda s: [s["location"].pop(k_, None) for k_ in ("geo_name_id", "lat", "lon")] and None)
+    # a traffic light that no lanelet lists: referenced from a stop line only / not referenced at all (lights, unlike signs, need no lanelet reference)
+    add("L2.refs", "L2.light-only-in-stop-line(no-lanelet-lists-it)", lambda s: find(s, "lanelets", 2).update(lights=[]))
+    add("T12", "second-light-referenced-by-nothing", lambda s: s["lights"].append({"id": 12, "position": [35.0, 5.5], "cycle": [("GREEN", 4), ("RED", 3)], "offset": 1, "active": True, "direction": "STRAIGHT"}))
+    # a goal state whose entry in the goal-lanelet table exists but is empty (what a lookup in a table that was read from a file leaves behind)
+    add("PP.goal.lanelets", "goal.lanelets={0:[],1:[2]}", lambda s: s["pps"][0]["goal"].__setitem__("lanelets", {0: [], 1: [2]}))
+    # an occupancy whose time interval has equal bounds (it stays an interval), and negative zeros in an initial state
+    add("O32.occ1.t", "occupancy.time_step=degenerate-interval", lambda s: find(s, "obstacles", 32)["prediction"]["occ"][1].__setitem__("t", ["iv", 2, 2]))
+    add("dynamic.init.negzero", "dynamic.initial_state.{acceleration,yaw_rate,slip_angle}=-0.0", lambda s: find(s, "obstacles", 31)["initial_state"]["attrs"].update(acceleration=-0.0, yaw_rate=-0.0, slip_angle=-0.0))
+    add("PP.init.negzero", "planning-problem.initial_state.{orientation,yaw_rate}=-0.0", lambda s: s["pps"][0]["initial_state"]["attrs"].update(orientation=-0.0, yaw_rate=-0.0))
     add("sid", "scenario_id=map-only", lambda s: s.__setitem__("sid", {"country": "ZAM", "map": "Tjunction", "map_id": 3}))
     add("sid", "scenario_id=coop-multi", lambda s: s.__setitem__("sid", {"coop": True, "country": "DEU", "map": "A9", "map_id": 33, "conf": 2, "beh": "S", "pred": [1, 3]}))
     for f in ("horn", "indicator_left", "indicator_right", "braking_lights", "hazard_warning_lights", "flashing_blue_lights"):
